@@ -2,7 +2,7 @@
    Statements only; proofs in proofs/SendQueueProofs.v; model in model/SendQueue.v (RSocketBase.send_frame,
    send_priority_frame, _requeue_partially_sent, _get_next_frame_to_send) and model/Fragmenter.v (the receiver's cache). *)
 From Coq Require Import NArith List Init.Byte.
-From RSV Require Import gen.GenConst lib.Bytes model.Frame model.Fragmenter model.SendQueue proofs.FragmenterProofs proofs.SendQueueProofs.
+From RSV Require Import gen.GenConst lib.Bytes model.Frame model.Fragmenter model.SendQueue proofs.FragmenterProofs proofs.SendQueueProofs proofs.PipelinePrio.
 Import ListNotations.
 Open Scope N_scope.
 
@@ -16,6 +16,17 @@ Theorem C05_per_stream : forall size lenreq, size_ok size -> forall ls k, no_pri
   on k (wire s) ++ pending (q s) k = concat (map (emissions size lenreq) (on k (enqueued ls))).
 Proof. exact per_stream. Qed.
 Print Assumptions C05_per_stream.
+
+(* The same with send_priority_frame calls (SETUP, on stream 0) anywhere in the history: a priority frame goes in front of
+   everything queued, and changes nothing for any stream it is not on.  So the per-stream statement holds for EVERY
+   history — requests made while the client connects or reconnects included — and every stream k no priority frame is
+   queued on. *)
+Theorem C05_per_stream_with_priority : forall size lenreq, size_ok size -> forall ls k,
+  Forall (fun l => match l with QPrio f => fsid f <> k | _ => True end) ls ->
+  let s := qrun size lenreq ls in
+  on k (wire s) ++ pending (q s) k = concat (map (emissions size lenreq) (on k (enqueued ls))).
+Proof. exact per_stream_prio. Qed.
+Print Assumptions C05_per_stream_with_priority.
 
 (* one sender step writes the head of its stream's pending fragments and leaves every other stream untouched *)
 Theorem C05_step : forall qq x q', Q qq -> send_step qq = Some (x, q') ->
